@@ -143,6 +143,10 @@ class ExtremaEquiv(_Equiv):
             {'x': [0, 1, 0], 'pad': 2, 'parab': 0, 'creal': [0.7, -0.7], 'corr': [-1.0]},                     # None <-> None
             {'x': [0, 3, 1, 2, 0.5, 4, 1], 'pad': 3, 'parab': 1, 'creal': [0.7, -0.7], 'corr': [-1.0, 0.00390625]},
             {'x': [], 'pad': 2, 'parab': 0, 'creal': [2.5, -2.5], 'corr': [-1.0]},
+            # clean-tree false alarm of a thorough sweep (seed 23): a refined location at rounding distance from 0 decides the
+            # number of padding rounds differently after a real rescaling -> must be skipped as near-tie-padding-loop
+            {'x': [-0.0, 0.0, -1.5, -0.5, -0.5, -1.5, -0.5, -1.0, -1.5, 0.0, -0.5], 'pad': 1, 'parab': 1,
+             'creal': [0.08459926187133097, -48.601005974329475], 'corr': [-16.0, 0.0625, 128.0], 'family': 'plateau'},
         ]
 
     def generate(self, rng, tier):
@@ -195,8 +199,12 @@ class ExtremaEquiv(_Equiv):
                 else:
                     lok = len(r['locs']) == len(src['locs']) and all(abs(a - b) <= ltol for a, b in zip(r['locs'], src['locs']))
                 if not lok:
-                    if not exact and gap < K.GUARD:
-                        verdicts.append(('skip', label + ':near-tie-extrema', ''))
+                    # with parabolic refinement the re-padding loop tests fractional locations against 0 and n: a location
+                    # at rounding distance from either bound makes the number of padding rounds a matter of rounding
+                    loop_tie = (not exact) and parab and any(min(abs(v), abs(v - n)) <= 1e-9 * max(1.0, n)
+                                                             for v in list(r['locs']) + list(src['locs']))
+                    if not exact and (gap < K.GUARD or loop_tie):
+                        verdicts.append(('skip', label + (':near-tie-padding-loop' if loop_tie else ':near-tie-extrema'), ''))
                     else:
                         verdicts.append(('fail', label + ':locations-differ', 'c=%r mode=%s: %s, %s of x: %s'
                                          % (c, m, r['locs'][:10], K.source_mode(m, c), src['locs'][:10])))
